@@ -845,6 +845,13 @@ class Date:
                         math.copysign(12, tenor_obj._num_periods)
                     )
 
+                # keep the original day of month where the target month has
+                # it (e.g. 29 Feb + 4Y) so that nY agrees with 12nM
+                y = new_dt.y
+                m = new_dt.m
+                d = min(self.d, new_dt.eom().d)
+                new_dt = Date(d, m, y)
+
             new_dts.append(new_dt)
 
         if list_flag is True:
